@@ -54,7 +54,7 @@ class Obligation:
     """One solver obligation.  kind: 'xh' (CrossHair harness fn) | 'z3' (module:function encoded query)."""
 
     def __init__(self, oid, kind, harness, fn, param=None, timeout=30, bounds="", desc="",
-                 api_replay=None, twin_timeout=15, extra=None):
+                 api_replay=None, twin_timeout=15, extra=None, search=False):
         self.id = oid
         self.kind = kind
         self.harness = harness
@@ -66,6 +66,7 @@ class Obligation:
         self.api_replay = api_replay
         self.twin_timeout = twin_timeout
         self.extra = extra or {}
+        self.search = search       # time-boxed search (bug hunting): "no counterexample within the time box" is its normal outcome
 
 
 def env_for(snap, mode):
@@ -110,7 +111,7 @@ def write_replay(ob, ctx, res, n):
     path = os.path.join(d, f"{safe}{'' if n == 0 else '.' + str(n)}.json")
     rec = {"property": ctx["prop"], "obligation": ob.id, "kind": ob.kind, "harness": ob.harness, "fn": ob.fn,
            "param": ob.param, "call": res.get("call"), "cex": res.get("cex"), "engine_message": res.get("message"),
-           "desc": ob.desc, "extra": ob.extra,
+           "desc": ob.desc, "extra": ob.extra, "tier": ctx["tier"],
            "how": f"./check {ctx['prop']} --replay {os.path.relpath(path, VERIF)}"}
     with open(path, "w") as f:
         json.dump(rec, f, indent=1, default=str)
@@ -146,6 +147,9 @@ def discharge(ob, ctx):
         if res["verdict"] != "CEX":
             out["verdict"] = res["verdict"]
             out["why"] = res.get("why")
+            if ob.search and res["verdict"] == "INCONCLUSIVE" and res.get("why") == "cannot_confirm":
+                out["verdict"] = "SEARCHED"
+                out["why"] = "time-boxed search: no counterexample within %ss (not a proof)" % ob.timeout
             break
         path = write_replay(ob, ctx, res, n)
         ok, outcome = run_replay(path, ctx["snap"], ctx["tmp"])
@@ -261,6 +265,7 @@ def main(argv=None):
                 "obligations": len(results),
                 "discharged": proved,
                 "inconclusive": [{"id": r["id"], "why": r.get("why")} for r in inconc],
+                "time_boxed_searches_without_counterexample": [r["id"] for r in results if r["verdict"] == "SEARCHED"],
                 "known_findings": [{"obligation": i, **k} for i, k in knowns],
                 "uncovered": uncovered,
                 "functions_encoded": plan.get("functions", []),
